@@ -45,6 +45,8 @@ type RunResult struct {
 	Trace      []simrt.Step      `json:"trace,omitempty"`
 	StateHash  string            `json:"state_hash,omitempty"`
 	Strategy   int               `json:"strategy"`
+	OpsPerInv  []int             `json:"ops_per_inv,omitempty"`
+	Sweep      string            `json:"sweep,omitempty"`
 }
 
 // Options passed from the controller.
